@@ -109,7 +109,8 @@ def describe(pl):
         if isinstance(s, Pipe):
             out.append(('pipe', s.diameter, s.length, s.total_K, s.elev_change))
         else:
-            out.append(('pump', getattr(s, '_example', s.name), s.limited, s.avail_power, s.gear_ratio, s.current_speed, s.current_impeller))
+            out.append(('pump', getattr(s, '_example', s.name), s.limited, s.avail_power, s.gear_ratio, s.current_speed, s.current_impeller,
+                        sorted(s.driver.design_power_curve.items()) if s.limited == 'curve' and s.driver else None))
     sl = pl.slurry
     return {'sections': out, 'slurry': getattr(sl, '_params', {'Dp': sl.Dp, 'D50': sl.D50, 'fluid': sl.fluid, 'Cv': sl.Cv, 'rhos': sl.rhos})}
 
@@ -125,3 +126,35 @@ def fresh_slurry_like(sl, Dp):
     s.epsilon = sl.epsilon
     s.generate_GSD(d15_ratio=r15, d85_ratio=r85)
     return s
+
+
+def rebuild(desc):
+    """re-create a pipeline from `describe()` output (replays, known findings)"""
+    from DHLLDV.PipeObj import Pipe, Pipeline
+    from DHLLDV.DriverObj import Driver
+    from DHLLDV.DHLLDV_Utils import interpDict
+    sp = dict(desc['slurry'])
+    sl = E.make_slurry(sp)
+    sl._params = sp
+    secs = []
+    for i, s in enumerate(desc['sections']):
+        if s[0] == 'pipe':
+            secs.append(Pipe(f'pipe {i}', s[1], s[2], s[3], s[4]))
+        else:
+            _, name, limited, avail, gear, speed, imp = s[:7]
+            base = example_pumps()[name]
+            over = {'limited': limited, 'avail_power': avail, 'gear_ratio': gear}
+            if limited == 'curve':
+                curve = s[7] if len(s) > 7 and s[7] else None
+                if curve:
+                    over['driver'] = Driver(name='driver', design_power_curve=interpDict(dict((float(k), float(v)) for k, v in curve)))
+                else:
+                    import random
+                    over['driver'] = make_driver(random.Random(0), base, gear, shape='linear', nameplate=avail)
+                over['driver_name'] = over['driver'].name
+            p = clone_pump(base, **over)
+            p._example = name
+            p.current_speed = speed
+            p.current_impeller = imp
+            secs.append(p)
+    return Pipeline(name='rebuilt', pipe_list=secs, slurry=sl)
